@@ -56,7 +56,7 @@ class HarnessError(Exception):
 # --------------------------------------------------------------------------------------------
 
 class WallGuard:
-    LIMIT_S = 30.0
+    LIMIT_S = 60.0
 
     def __init__(self):
         self.lock = threading.Lock()
